@@ -1957,7 +1957,12 @@ func normNCBI(data []byte) []byte {
 			out = append(out, body[pos:idx]...)
 			pos = idx + len(t)
 			if ti > 0 {
-				if v, err := strconv.ParseFloat(string(t), 64); err == nil {
+				v, err := strconv.ParseFloat(string(t), 64)
+				if ne, ok := err.(*strconv.NumError); ok && ne.Err == strconv.ErrRange {
+					t = []byte("RANGE")
+					changed = true
+				}
+				if err == nil {
 					q := math.Round(v * 4)
 					if math.IsNaN(q) || math.Abs(q) > 1e9 {
 						q = 0
